@@ -8,14 +8,15 @@ extern "C" {
 #include "a/crc.h"
 #include "a/hash.h"
 #include "a/utf.h"
+#include "a/str.h"
 }
 
 namespace sim {
 
 SimAlloc SA;
 
-enum StreamOp { X_FRAG, X_EMPTY, X_REST, U_DELIVER, U_READ, U_CORRUPT, U_TRUNCATE, U_SINGLE, X__COUNT };
-static char const *const STREAM_OP_NAMES[] = {"frag", "empty", "rest", "deliver", "read", "corrupt", "truncate", "single"};
+enum StreamOp { X_FRAG, X_EMPTY, X_REST, U_DELIVER, U_READ, U_CORRUPT, U_TRUNCATE, U_SINGLE, U_MALFORMED, U_STROBJ, X__COUNT };
+static char const *const STREAM_OP_NAMES[] = {"frag", "empty", "rest", "deliver", "read", "corrupt", "truncate", "single", "malformed", "strobj"};
 static inline uint64_t mag64(int64_t v) { return (uint64_t)(v < 0 ? -v : v); }
 
 // ---- bitwise references (independent of the library's tables and of a_uN_rev)
@@ -87,10 +88,19 @@ struct CrcSim
         c.site("a_hash_sdbm_"); hs = a_hash_sdbm_(f, n, hs);
         if (nulfree)
         {
-            char *z = (char *)SA.halloc(n + 1); memcpy(z, f, n); z[n] = 0;
-            c.site("a_hash_bkdr"); hbs = a_hash_bkdr(z, hbs);
-            c.site("a_hash_sdbm"); hss = a_hash_sdbm(z, hss);
-            SA.hfree(z);
+            if (n == 0 && (pos & 1))
+            { // an empty piece handed over as a null string: the running value must pass through unchanged
+                c.site("a_hash_bkdr"); hbs = a_hash_bkdr(nullptr, hbs);
+                c.site("a_hash_sdbm"); hss = a_hash_sdbm(nullptr, hss);
+                c.st.add("fault.null_string_piece");
+            }
+            else
+            {
+                char *z = (char *)SA.halloc(n + 1); memcpy(z, f, n); z[n] = 0;
+                c.site("a_hash_bkdr"); hbs = a_hash_bkdr(z, hbs);
+                c.site("a_hash_sdbm"); hss = a_hash_sdbm(z, hss);
+                SA.hfree(z);
+            }
         }
         SA.hfree(f); SA.hfree(fr);
         pos += n; ++c.steps;
@@ -138,6 +148,19 @@ struct CrcSim
         }
         size_t const esz = (size_t)w / 8;
         tm = SA.halloc(0x100 * esz); tl = SA.halloc(0x100 * esz);
+        // the caller's table memory is arbitrary before initialisation: junk, zeros, ones, a table of another
+        // polynomial, or a stale buffer that happens to begin like the table about to be built (entry 0 = 0, entry 1 = poly)
+        int const prefill = (int)(mag64(p.knob("prefill", 0)) % 6);
+        auto put = [&](void *t, size_t i, uint64_t v) { switch (w) { case 8: ((a_u8 *)t)[i] = (a_u8)v; break; case 16: ((a_u16 *)t)[i] = (a_u16)v; break; case 32: ((a_u32 *)t)[i] = (a_u32)v; break; default: ((a_u64 *)t)[i] = v; break; } };
+        for (void *t : {tm, tl})
+        {
+            if (prefill == 1) memset(t, 0, 0x100 * esz);
+            else if (prefill == 2) memset(t, 0xFF, 0x100 * esz);
+            else if (prefill == 3) { for (size_t i = 0; i < 0x100; ++i) put(t, i, splitmix64(ps + i)); put(t, 0, 0); put(t, 1, t == tm ? poly : ref_rev(poly, w)); }
+            else if (prefill == 4) { put(t, 0, 0); put(t, 1, poly); put(t, 0x80, ref_rev(poly, w)); }
+            else if (prefill == 5) { for (size_t i = 0; i < 0x100; ++i) put(t, i, i * 0x0101010101010101ull); }
+        }
+        c.st.add(std::string("probe.table_prefill_") + std::to_string(prefill));
         switch (w)
         {
         case 8: c.site("a_crc8m_init"); a_crc8m_init((a_u8 *)tm, (a_u8)poly); c.site("a_crc8l_init"); a_crc8l_init((a_u8 *)tl, (a_u8)poly); break;
@@ -315,6 +338,55 @@ struct UtfSim
         c.st.state(fnv_mix(FNV0, cp));
         return okk;
     }
+    // an arbitrary lead byte followed by k continuation bytes (and optionally one non-continuation byte), offered with
+    // every available length 0..len: the decoder may report at most six bytes, never more than available, and only
+    // sequences whose trailing bytes are continuation bytes (the oracle for arbitrary bytes, nothing more)
+    bool malformed(uint64_t v0, uint64_t v1)
+    {
+        static const unsigned char LEADS[] = {0xFE, 0xFF, 0xFC, 0xF8, 0xF0, 0xE0, 0xC0, 0x80, 0xBF, 0xC1, 0xFD, 0xF7};
+        unsigned char buf[12]; size_t len = 0;
+        buf[len++] = (v0 & 1) ? LEADS[(v0 >> 1) % sizeof LEADS] : (unsigned char)(0x80 | (v0 >> 1));
+        size_t const k = (size_t)((v0 >> 8) % 9);
+        for (size_t i = 0; i < k; ++i) buf[len++] = (unsigned char)(0x80 | ((v1 >> (i * 3)) & 0x3F));
+        if ((v0 >> 12) & 1) buf[len++] = (unsigned char)(v1 >> 24);
+        for (size_t n = 0; n <= len; ++n)
+        {
+            uint32_t cp; bool ok;
+            unsigned const r = guarded_decode(buf, n, &cp, ok);
+            if (!ok) return false;
+            if (!check_length_counter(buf, n)) return false;
+        }
+        ++c.steps;
+        c.st.add("fault.malformed_sequence");
+        return true;
+    }
+    // the string object's counter a_utf_len (src/str.c): content appended without a terminator, possibly shrunk again,
+    // so that stale bytes follow the content; it must count exactly the content
+    bool strobj(uint64_t v0, uint64_t v1)
+    {
+        a_str sobj; a_str_ctor(&sobj);
+        bool okk = true;
+        { a_size st0 = 777; c.site("a_utf_len"); a_size n0 = a_utf_len(&sobj, &st0); if (n0 != 0 || st0 != 0) okk = c.fail("length-counter-wrong", "a_utf_len", "a string without a buffer counts %zu code points and stops at %zu", (size_t)n0, (size_t)st0); }
+        { a_size st1 = 555; c.site("a_utf_length"); a_size n1 = a_utf_length(nullptr, 0, &st1); if (okk && (n1 != 0 || st1 != 0)) okk = c.fail("length-counter-wrong", "a_utf_length", "a null buffer of length 0 counts %zu code points and stops at %zu", (size_t)n1, (size_t)st1); }
+        size_t const take = wire.empty() ? 0 : (size_t)(v0 % (wire.size() + 1));
+        if (okk && take) a_str_catn_(&sobj, wire.data(), take);
+        size_t keep = take ? (size_t)(v1 % (take + 1)) : 0;
+        if (okk && take) { if (v0 & 1) a_str_getn_(&sobj, nullptr, take - keep); else a_str_setn_(&sobj, keep); }
+        if (okk)
+        {
+            a_size stop = 999;
+            c.site("a_utf_len");
+            a_size const cnt = a_utf_len(&sobj, &stop);
+            size_t pos = 0, k = 0;
+            unsigned char *g = gb.place(wire.data(), keep);
+            while (pos < keep) { unsigned r = a_utf_decode(g + pos, keep - pos, nullptr); if (!r) break; pos += r; ++k; }
+            if (cnt != k || stop != pos) okk = c.fail("length-counter-wrong", "a_utf_len", "string of %zu bytes (buffer holds %zu stale bytes more): counted %zu / stopped at %zu, stepping the decoder over the content gives %zu / %zu", keep, take - keep, (size_t)cnt, (size_t)stop, k, pos);
+        }
+        a_str_dtor(&sobj);
+        ++c.steps;
+        c.st.add("probe.string_object_counter");
+        return okk;
+    }
     void exec(Plan const &p)
     {
         SA.reset();
@@ -369,6 +441,8 @@ struct UtfSim
                 break;
             }
             case U_SINGLE: single(pick_cp(mag64(o.a[0]) * 2654435761ull + mag64(o.a[1]))); break;
+            case U_MALFORMED: malformed(mag64(o.a[0]), mag64(o.a[1])); break;
+            case U_STROBJ: strobj(mag64(o.a[0]), mag64(o.a[1])); break;
             default: break;
             }
             c.obs((uint64_t)o.kind); c.obs(decoded.size()); c.obs(rpos);
@@ -408,6 +482,7 @@ struct StreamEngine : Engine
             p.set("sys", 0);
             p.set("wsel", (int64_t)r.below(4)); p.set("polyseed", (int64_t)r.below(1u << 30)); p.set("initsel", (int64_t)r.below(1u << 30));
             p.set("msglen", (int64_t)r.geolen(0, 300)); p.set("msgseed", (int64_t)r.below(1u << 30)); p.set("pattern", (int64_t)r.below(5));
+            p.set("prefill", (int64_t)r.below(6));
             int64_t const nops = r.geolen(0, 40);
             for (int64_t i = 0; i < nops; ++i) { Op o; uint64_t k = r.below(8); o.kind = k < 6 ? X_FRAG : k == 6 ? X_EMPTY : X_REST; o.a[0] = (int64_t)r.below(100000); p.ops.push_back(o); }
         }
@@ -420,8 +495,8 @@ struct StreamEngine : Engine
             bool const with_trunc = r.chance(1, 3);
             for (int64_t i = 0; i < nops; ++i)
             {
-                Op o; uint64_t k = r.below(12);
-                o.kind = k < 5 ? U_DELIVER : k < 7 ? U_READ : k < 10 ? U_SINGLE : (corrupt ? U_CORRUPT : U_DELIVER);
+                Op o; uint64_t k = r.below(14);
+                o.kind = k < 5 ? U_DELIVER : k < 7 ? U_READ : k < 10 ? U_SINGLE : k == 12 ? U_MALFORMED : k == 13 ? U_STROBJ : (corrupt ? U_CORRUPT : U_DELIVER);
                 if (k == 11 && with_trunc && i > nops / 2) o.kind = U_TRUNCATE;
                 for (int j = 0; j < 4; ++j) o.a[j] = (int64_t)r.below(1u << 30);
                 p.ops.push_back(o);
